@@ -57,9 +57,17 @@ Adv == e' = e + 1 /\ UNCHANGED <<c, vars>>
 ProgOk ==
   /\ A \in Algs
   /\ \A q \in 1..Len(In.prog) :
-       /\ In.prog[q].s \in 1..NS(A)
-       /\ In.prog[q].n = Doc[A].s[In.prog[q].s].n
-       /\ Len(In.prog[q].a) = Doc[A].s[In.prog[q].s].na
+       IF In.prog[q].s = 0
+         THEN In.prog[q].n \in MidOps(A) /\ In.prog[q].a = <<>>              \* interleaved check / clone
+         ELSE /\ In.prog[q].s \in 1..NS(A)
+              /\ In.prog[q].n = Doc[A].s[In.prog[q].s].n
+              /\ Len(In.prog[q].a) = Doc[A].s[In.prog[q].s].na
+
+\* the checks interleaved with the setters: the k-th one judged the values the builder held at that point
+MidIdx == SelectSeq([q \in 1..Len(In.prog) |-> q], LAMBDA q : In.prog[q].s = 0)
+MidOk(mid) ==
+  /\ Len(mid) = Len(MidIdx)
+  /\ \A k \in 1..Len(mid) : ~mid[k].panic /\ mid[k].ok \in Expected(A, Replay(A, SubSeq(Prog, 1, MidIdx[k])), Devs)
 
 \* values read back from the checked parameters (only fields the API lets us observe)
 ValsOk(ev) ==
@@ -73,6 +81,7 @@ Exp == Expected(A, x, Devs)
 TBuilt ==
   /\ HasEv("built") /\ e = 1
   /\ ProgOk
+  /\ MidOk(Ev.mid)
   /\ x' = Replay(A, Prog)
   /\ obs0' = Ev.obs
   /\ Adv /\ UNCHANGED <<ver, cerr, ures, cres1, cres2>>
@@ -150,7 +159,7 @@ Accept ==
 \* diagnostics: name the first false clause of the first unexplained event.  The FAIL tuple is kept
 \* short (TLC wraps long values over several lines); the DETAIL string carries the values.
 Why ==
-  IF Ev.ev = "built" THEN <<"program-not-in-doc">>
+  IF Ev.ev = "built" THEN (IF ProgOk THEN <<"interleaved-check-verdict">> ELSE <<"program-not-in-doc">>)
   ELSE IF Ev.ev = "check_ref" THEN
        IF Ev.ok \notin Exp THEN <<"verdict", Ev.ok>>
        ELSE IF Ev.obs # obs0 THEN <<"builder-changed">>
